@@ -102,6 +102,10 @@ class BruteSolver(IncrementalTrackingSolver):
     # ------------------------------------------------------------ proxies
     @clear_pending_pop
     def _reset_assertions(self):
+        if self.fault_plan.get("refuse_next_reset"):
+            self.fault_plan["refuse_next_reset"] = False
+            self._fire("reset_refused")
+            raise InternalSolverError("reset-assertions is not supported right now")
         self.b_counts["reset"] += 1
         self.b_log.append(("reset",))
         self.b_frames = [[]]
@@ -242,3 +246,12 @@ class BruteSUAOptimizer(BruteSolver, SUAOptimizerMixin):
 
 class BruteIncrementalOptimizer(BruteSolver, IncrementalOptimizerMixin):
     pass
+
+
+def script_optimizer_class():
+    """an optimiser that also offers the SMT-LIB command interface SmtLibScript.evaluate() drives"""
+    from pysmt.solvers.smtlib import SmtLibBasicSolver
+
+    class BruteScriptOptimizer(BruteIncrementalOptimizer, SmtLibBasicSolver):
+        pass
+    return BruteScriptOptimizer
